@@ -393,12 +393,17 @@ func genRelay(t *rapid.T, tcp bool) *caseRun {
 			}
 			for tries := 0; len(ops) < nOps && tries < 40; tries++ {
 				ri := rapid.IntRange(0, len(pr.insts)-1).Draw(t, "res")
+				afterLinkWrite := len(ops) > 0 && ops[len(ops)-1].Kind == prog.OpWrite && binds[i][ops[len(ops)-1].Res].role != rolePrivate
+				if afterLinkWrite && binds[i][ri].role == rolePrivate && rapid.Bool().Draw(t, "learnafterwrite") {
+					// favour the shape "write to a link, then learn something from another link in the same section"
+					ri = rapid.IntRange(0, len(pr.insts)-1).Draw(t, "res2")
+				}
 				in, b := pr.insts[ri], binds[i][ri]
 				idx := -1
 				if in.NumIdx() > 0 {
 					idx = rapid.IntRange(0, in.NumIdx()-1).Draw(t, "idx")
 				}
-				wantRead := rapid.Bool().Draw(t, "read")
+				wantRead := rapid.Bool().Draw(t, "read") || (afterLinkWrite && b.role == roleShared)
 				switch {
 				case b.role == roleRecv:
 					if used < sent[b.link] {
@@ -409,8 +414,8 @@ func genRelay(t *rapid.T, tcp bool) *caseRun {
 					ops = append(ops, prog.Op{Kind: prog.OpRead, Res: ri, Idx: idx})
 				case in.CanWrite():
 					tok++
-					ops = append(ops, prog.Op{Kind: prog.OpWrite, Res: ri, Idx: idx, Tok: fmt.Sprintf("p%dt%d", i, tok),
-						Fwd: rapid.IntRange(0, 2).Draw(t, "forward") == 0})
+					fwd := rapid.IntRange(0, 3).Draw(t, "forward") // 1: relay the last value read, tagged; 2: ... keeping the clock it carried
+					ops = append(ops, prog.Op{Kind: prog.OpWrite, Res: ri, Idx: idx, Tok: fmt.Sprintf("p%dt%d", i, tok), Fwd: fwd == 1 || fwd == 2, Raw: fwd == 2})
 					if b.role == roleSend {
 						sent[b.link]++
 					}
